@@ -156,6 +156,11 @@ class StmtExec(Exec):
             args = [recv] + args
         pnames = list(callee.params)
         env = {}
+        if callee.star and pnames and pnames[-1] == callee.star and not any(isinstance(a, tuple) and a and a[0] == "*" for a in args) \
+                and len(args) >= len(pnames) - 1:
+            # f(a, b, c) with `def f(x, *rest)`: the surplus positional arguments form the star parameter
+            k = len(pnames) - 1
+            args = list(args[:k]) + [PyTup(list(args[k:]), True)]
         for i, a in enumerate(args):
             if isinstance(a, tuple) and a and a[0] == "*":
                 if callee.star and i == len(pnames) - 1 or callee.star == pnames[min(i, len(pnames) - 1)]:
